@@ -1,0 +1,59 @@
+//go:build verif
+
+package libp2p
+
+import (
+	"context"
+
+	"github.com/libp2p/go-libp2p/core/peer"
+
+	"github.com/keep-network/keep-core/pkg/net"
+	"github.com/keep-network/keep-core/pkg/net/gen/pb"
+)
+
+// Verification hook (build tag verif): wrappers around existing unexported
+// identifiers only.
+
+// VerifC18Channel is a bare channel (no pubsub behind it) whose only sink is a
+// buffered tap registered as a message handler.
+type VerifC18Channel struct {
+	c   *channel
+	tap chan net.Message
+}
+
+// VerifC18NewChannel builds a channel value with the given unmarshalers and
+// one registered message handler the caller can drain synchronously.
+func VerifC18NewChannel(
+	unmarshalers ...func() net.TaggedUnmarshaler,
+) *VerifC18Channel {
+	c := &channel{
+		name:               "verif-c18",
+		messageHandlers:    make([]*messageHandler, 0),
+		unmarshalersByType: make(map[string]func() net.TaggedUnmarshaler),
+	}
+	for _, u := range unmarshalers {
+		c.SetUnmarshaler(u)
+	}
+	tap := make(chan net.Message, messageHandlerThrottle)
+	c.messageHandlers = append(
+		c.messageHandlers,
+		&messageHandler{ctx: context.Background(), channel: tap},
+	)
+	return &VerifC18Channel{c, tap}
+}
+
+// Process calls processContainerMessage and returns what reached deliver.
+func (vc *VerifC18Channel) Process(
+	proposedSender peer.ID,
+	message *pb.BroadcastNetworkMessage,
+) (delivered []net.Message, err error) {
+	err = vc.c.processContainerMessage(proposedSender, message)
+	for {
+		select {
+		case m := <-vc.tap:
+			delivered = append(delivered, m)
+		default:
+			return delivered, err
+		}
+	}
+}
